@@ -337,3 +337,327 @@ theorem tokenise_plain_append (q r : List Char) (hq : q.any isSpecial = false) :
     rw [tokenise.eq_def]
     simp [hc, ih hq.2]
 
+theorem likeMatchG_lits (eqv : Char → Char → Bool) (q : List Char) (toks : List Tok) (s : List Char) :
+    likeMatchG eqv (q.map Tok.lit ++ toks) s =
+      (isPrefixG eqv q s && likeMatchG eqv toks (s.drop q.length)) := by
+  induction q generalizing s with
+  | nil => simp [isPrefixG]
+  | cons c q ih =>
+    cases s with
+    | nil => simp [likeMatchG, isPrefixG]
+    | cons x s => simp [likeMatchG, isPrefixG, ih, Bool.and_assoc]
+
+theorem isPrefixG_beq (q s : List Char) : isPrefixG (· == ·) q s = q.isPrefixOf s := by
+  induction q generalizing s with
+  | nil => simp [isPrefixG]
+  | cons c q ih =>
+    cases s with
+    | nil => simp [isPrefixG]
+    | cons x s => simp [isPrefixG, ih, List.isPrefixOf]
+
+theorem likeMatchG_many_nil (eqv : Char → Char → Bool) (s : List Char) :
+    likeMatchG eqv [Tok.many] s = true := by
+  simp only [likeMatchG]
+  rw [anySuffix_iff]
+  exact ⟨[], List.nil_suffix, rfl⟩
+
+theorem eqG_eq_prefix_len (eqv : Char → Char → Bool) (q s : List Char) :
+    eqG eqv q s = (isPrefixG eqv q s && (s.drop q.length).isEmpty) := by
+  induction q generalizing s with
+  | nil => cases s <;> simp [eqG, isPrefixG]
+  | cons c q ih =>
+    cases s with
+    | nil => simp [eqG, isPrefixG]
+    | cons x s => simp [eqG, isPrefixG, ih, Bool.and_assoc]
+
+theorem eqG_beq (q s : List Char) : eqG (· == ·) q s = (q == s) := by
+  induction q generalizing s with
+  | nil => cases s <;> simp [eqG]
+  | cons c q ih =>
+    cases s with
+    | nil => simp [eqG]
+    | cons x s => simp [eqG, ih]
+
+/-- no wildcard: LIKE is (pointwise) equality -/
+theorem likeMatchG_plain (eqv : Char → Char → Bool) (q s : List Char) :
+    likeMatchG eqv (q.map Tok.lit) s = eqG eqv q s := by
+  have := likeMatchG_lits eqv q [] s
+  simp only [List.append_nil] at this
+  rw [this, eqG_eq_prefix_len]
+  simp [likeMatchG]
+
+/-- `q%`: prefix -/
+theorem likeMatchG_prefix (eqv : Char → Char → Bool) (q s : List Char) :
+    likeMatchG eqv (q.map Tok.lit ++ [Tok.many]) s = isPrefixG eqv q s := by
+  rw [likeMatchG_lits, likeMatchG_many_nil, Bool.and_true]
+
+/-- pointwise-related suffix test -/
+def isSuffixG (eqv : Char → Char → Bool) (q s : List Char) : Bool := anySuffix (eqG eqv q) s
+
+/-- `%q`: suffix -/
+theorem likeMatchG_suffix (eqv : Char → Char → Bool) (q s : List Char) :
+    likeMatchG eqv (Tok.many :: q.map Tok.lit) s = isSuffixG eqv q s := by
+  simp only [likeMatchG, isSuffixG]
+  congr 1
+  funext t
+  exact likeMatchG_plain eqv q t
+
+theorem isSuffixG_beq (q s : List Char) : isSuffixG (· == ·) q s = q.isSuffixOf s := by
+  apply Bool.eq_iff_iff.mpr
+  unfold isSuffixG
+  rw [anySuffix_iff, List.isSuffixOf_iff_suffix]
+  constructor
+  · rintro ⟨t, ht, he⟩
+    rw [eqG_beq] at he
+    rw [eq_of_beq he]; exact ht
+  · intro h
+    exact ⟨q, h, by rw [eqG_beq]; simp⟩
+
+/-- `%q%`: infix -/
+theorem likeMatchG_infix (eqv : Char → Char → Bool) (q s : List Char) :
+    likeMatchG eqv (Tok.many :: (q.map Tok.lit ++ [Tok.many])) s = anySuffix (isPrefixG eqv q) s := by
+  simp only [likeMatchG]
+  congr 1
+  funext t
+  exact likeMatchG_prefix eqv q t
+
+/-! ## regex translation -/
+
+def conv : Tok → RxItem
+  | .lit c => .lit c
+  | .one => .any
+  | .many => .star
+
+theorem rxBody_eq (p : List Char) : rxBody p = (tokenise p).map conv := by
+  fun_induction tokenise p <;> simp_all [rxBody, conv]
+
+theorem rxMatchHere_conv (eqv : Char → Char → Bool) (toks : List Tok) (s : List Char) :
+    rxMatchHere eqv (toks.map conv) true s = likeMatchG eqv toks s := by
+  induction toks generalizing s with
+  | nil => simp [rxMatchHere, likeMatchG]
+  | cons t toks ih =>
+    cases t with
+    | lit c => cases s <;> simp [rxMatchHere, likeMatchG, conv, ih]
+    | one => cases s <;> simp [rxMatchHere, likeMatchG, conv, ih]
+    | many =>
+      simp only [List.map_cons, conv, rxMatchHere, likeMatchG]
+      congr 1
+      funext t
+      exact ih t
+
+theorem anySuffix_true (s : List Char) : anySuffix (fun _ => true) s = true := by
+  cases s <;> simp [anySuffix]
+
+/-- a trailing `.*$` is the same as no end anchor at all -/
+theorem rxMatchHere_star_end (eqv : Char → Char → Bool) (items : List RxItem) (s : List Char) :
+    rxMatchHere eqv (items ++ [RxItem.star]) true s = rxMatchHere eqv items false s := by
+  induction items generalizing s with
+  | nil =>
+    simp only [List.nil_append, rxMatchHere]
+    simp
+    rw [anySuffix_iff]
+    exact ⟨[], List.nil_suffix, by simp⟩
+  | cons it items ih =>
+    cases it with
+    | lit c => cases s <;> simp [rxMatchHere, ih]
+    | any => cases s <;> simp [rxMatchHere, ih]
+    | star =>
+      simp only [List.cons_append, rxMatchHere]
+      congr 1
+      funext t
+      exact ih t
+
+theorem getLast?_eq_some_append {α} (l : List α) (a : α) (h : l.getLast? = some a) :
+    l = l.dropLast ++ [a] :=
+  by
+  have hne : l ≠ [] := by rintro rfl; simp at h
+  have h1 := List.dropLast_concat_getLast hne
+  rw [List.getLast?_eq_some_getLast hne] at h
+  simp only [Option.some.injEq] at h
+  rw [h] at h1
+  exact h1.symm
+
+/-- the body of `regex_like` after the optional leading `%` -/
+theorem regexBody_correct (eqv : Char → Char → Bool) (body s : List Char) :
+    (if (rxBody body).getLast? = some RxItem.star
+      then rxMatchHere eqv (rxBody body).dropLast false s
+      else rxMatchHere eqv (rxBody body) true s) = likeMatchG eqv (tokenise body) s := by
+  split
+  · rename_i h
+    rw [← rxMatchHere_star_end, ← getLast?_eq_some_append _ _ h, rxBody_eq, rxMatchHere_conv]
+  · rw [rxBody_eq, rxMatchHere_conv]
+
+theorem tokenise_percent (rest : List Char) : tokenise ('%' :: rest) = Tok.many :: tokenise rest := by
+  simp [tokenise]
+
+theorem regexLike_percent (rest : List Char) :
+    regexLike ('%' :: rest) = regexTail false (rxBody rest) := rfl
+
+theorem regexLike_other (p : List Char) (h : ∀ rest, p ≠ '%' :: rest) :
+    regexLike p = regexTail true (rxBody p) := by
+  unfold regexLike
+  split
+  · rename_i rest; exact absurd rfl (h rest)
+  · rfl
+
+theorem regexLike_isMatch (eqv : Char → Char → Bool) (p s : List Char) :
+    (regexLike p).isMatch eqv s = likeMatchG eqv (tokenise p) s := by
+  by_cases hp : ∃ rest, p = '%' :: rest
+  · obtain ⟨rest, rfl⟩ := hp
+    rw [tokenise_percent, regexLike_percent]
+    simp only [likeMatchG, regexTail]
+    split
+    · rename_i h
+      simp only [Rx.isMatch, Bool.false_eq_true, if_false]
+      congr 1; funext t
+      have := regexBody_correct eqv rest t
+      simpa [h] using this
+    · rename_i h
+      simp only [Rx.isMatch, Bool.false_eq_true, if_false]
+      congr 1; funext t
+      have := regexBody_correct eqv rest t
+      simpa [h] using this
+  · have hp' : ∀ rest, p ≠ '%' :: rest := fun rest h => hp ⟨rest, h⟩
+    rw [regexLike_other p hp']
+    simp only [regexTail]
+    have := regexBody_correct eqv p s
+    split
+    · rename_i h
+      simpa [Rx.isMatch, h] using this
+    · rename_i h
+      simpa [Rx.isMatch, h] using this
+
+open ArrowModel.Generated.C20
+
+theorem tokenise_plain (p : List Char) (h : p.any isSpecial = false) : tokenise p = p.map Tok.lit := by
+  have := tokenise_plain_append p [] h
+  simpa [tokenise] using this
+
+theorem dropEnd_eq (p : List Char) : dropEnd p = p.dropLast := by
+  simp [dropEnd, LIKE_TRIM_END, List.dropLast_eq_take]
+
+theorem dropStart_eq (p : List Char) : dropStart p = p.tail := by
+  simp [dropStart, LIKE_TRIM_START]
+
+theorem dropBoth_eq (p : List Char) : dropBoth p = p.dropLast.tail := by
+  simp [dropBoth, LIKE_CONTAINS_TRIM_END, LIKE_CONTAINS_TRIM_START, List.dropLast_eq_take]
+
+theorem eval_eq (p s : List Char) :
+    (Pred.eq p).eval (· == ·) s = (p == s) := by
+  simp only [Pred.eval]
+  apply Bool.eq_iff_iff.mpr
+  simp only [Bool.and_eq_true, beq_iff_eq]
+  constructor
+  · rintro ⟨_, h⟩; exact (encode_inj h).symm
+  · rintro rfl; simp
+
+theorem eval_startsWith (q s : List Char) :
+    (Pred.startsWith q).eval (· == ·) s = q.isPrefixOf s := by
+  simp only [Pred.eval, bytesStartsWith_eq]
+  apply Bool.eq_iff_iff.mpr
+  rw [List.isPrefixOf_iff_prefix, List.isPrefixOf_iff_prefix]
+  exact encode_prefix_iff q s
+
+theorem eval_endsWith (q s : List Char) :
+    (Pred.endsWith q).eval (· == ·) s = q.isSuffixOf s := by
+  simp only [Pred.eval, bytesEndsWith_eq]
+  apply Bool.eq_iff_iff.mpr
+  rw [List.isSuffixOf_iff_suffix, List.isSuffixOf_iff_suffix]
+  exact encode_suffix_iff q s
+
+theorem eval_contains (q s : List Char) :
+    (Pred.contains q).eval (· == ·) s = isInfix q s := by
+  simp only [Pred.eval]
+  apply Bool.eq_iff_iff.mpr
+  rw [memmem_iff, isInfix_iff]
+  exact encode_infix_iff q s
+
+theorem like_no_wildcard (p s : List Char) (h : p.any isSpecial = false) :
+    likeMatch (tokenise p) s = (p == s) := by
+  rw [tokenise_plain p h]
+  unfold likeMatch
+  rw [likeMatchG_plain, eqG_beq]
+
+theorem like_trailing_percent (q s : List Char) (h : q.any isSpecial = false) :
+    likeMatch (tokenise (q ++ ['%'])) s = q.isPrefixOf s := by
+  rw [tokenise_plain_append q _ h]
+  unfold likeMatch
+  rw [show tokenise ['%'] = [Tok.many] by simp [tokenise], likeMatchG_prefix, isPrefixG_beq]
+
+theorem like_leading_percent (q s : List Char) (h : q.any isSpecial = false) :
+    likeMatch (tokenise ('%' :: q)) s = q.isSuffixOf s := by
+  rw [tokenise_percent, tokenise_plain q h]
+  unfold likeMatch
+  rw [likeMatchG_suffix, isSuffixG_beq]
+
+theorem anySuffix_congr (f g : List Char → Bool) (s : List Char) (h : ∀ t, f t = g t) :
+    anySuffix f s = anySuffix g s := by
+  have : f = g := funext h
+  rw [this]
+
+theorem like_both_percent (q s : List Char) (h : q.any isSpecial = false) :
+    likeMatch (tokenise ('%' :: (q ++ ['%']))) s = isInfix q s := by
+  rw [tokenise_percent, tokenise_plain_append q _ h]
+  unfold likeMatch
+  rw [show tokenise ['%'] = [Tok.many] by simp [tokenise], likeMatchG_infix]
+  unfold isInfix
+  exact anySuffix_congr _ _ s (fun t => isPrefixG_beq q t)
+
+theorem getLast?_beq_some {p : List Char} {c : Char} (h : (p.getLast? == some c) = true) :
+    p = p.dropLast ++ [c] :=
+  getLast?_eq_some_append p c (by simpa using h)
+
+theorem head?_beq_some {p : List Char} {c : Char} (h : (p.head? == some c) = true) :
+    p = c :: p.tail := by
+  cases p with
+  | nil => simp at h
+  | cons d p => simp at h; simp [h]
+
+theorem classifyLike_eval (p s : List Char) :
+    (classifyLike p).eval (· == ·) s = likeMatch (tokenise p) s := by
+  unfold classifyLike
+  simp only [containsLikePattern_encode, dropEnd_eq, dropStart_eq, dropBoth_eq]
+  split
+  · rename_i h
+    simp only [Bool.not_eq_true', ] at h
+    rw [eval_eq, like_no_wildcard p s (by simpa using h)]
+  split
+  · rename_i _ h
+    simp only [Bool.and_eq_true, Bool.not_eq_true'] at h
+    have hp := getLast?_beq_some h.1
+    rw [eval_startsWith]
+    conv => rhs; rw [hp]
+    rw [like_trailing_percent _ _ (by simpa using h.2)]
+  split
+  · rename_i _ _ h
+    simp only [Bool.and_eq_true, Bool.not_eq_true'] at h
+    have hp := head?_beq_some h.1
+    rw [eval_endsWith]
+    conv => rhs; rw [hp]
+    rw [like_leading_percent _ _ (by simpa using h.2)]
+  split
+  · rename_i _ h2 _ h
+    simp only [Bool.and_eq_true, Bool.not_eq_true'] at h
+    obtain ⟨⟨hh, hl⟩, hplain⟩ := h
+    have hp1 := getLast?_beq_some hl
+    have hp2 : p.dropLast = '%' :: p.dropLast.tail := by
+      cases hd : p.dropLast with
+      | nil =>
+        exfalso
+        rw [hd] at hp1
+        apply h2
+        rw [hp1]; simp
+      | cons c r =>
+        rw [hd] at hp1
+        rw [hp1] at hh
+        simp at hh
+        simp [hh]
+    rw [eval_contains]
+    conv => rhs; rw [hp1, hp2]
+    rw [List.cons_append, like_both_percent _ _ (by simpa using hplain)]
+  · unfold likeMatch
+    simp only [Pred.eval]
+    exact regexLike_isMatch _ p s
+
+
+end ArrowModel.C20
